@@ -42,6 +42,8 @@ type Case struct {
 	RespHookErr    int       `json:"resp_hook_err"`  // response hook errors on the n-th response (1-based, 0 = never)
 	BlockHookErr   int       `json:"block_hook_err"` // block hook errors on the n-th block
 	BlockHookPause int       `json:"block_hook_pause"`
+	BlockHookStall int       `json:"block_hook_stall"` // the block hook blocks at the n-th block until a "release" action (later messages are buffered meanwhile)
+	CancelInHook   bool      `json:"cancel_in_hook"` // the caller's context ends while the request is being registered (from the outgoing-request hook)
 	SendFails      int       `json:"send_fails"` // first n SendMsg calls of the requestor fail
 	Retries        int       `json:"retries"`
 	ConnectFails   bool      `json:"connect_fails"`
@@ -67,9 +69,17 @@ func gen(t *rapid.T) Case {
 	if rapid.IntRange(0, 4).Draw(t, "bhp") == 0 {
 		c.BlockHookPause = rapid.IntRange(1, 5).Draw(t, "bhpn")
 	}
+	if rapid.IntRange(0, 2).Draw(t, "bhs") == 0 {
+		c.BlockHookStall = rapid.IntRange(1, 4).Draw(t, "bhsn")
+		if rapid.Bool().Draw(t, "pauseafter") {
+			c.BlockHookPause = c.BlockHookStall + rapid.IntRange(0, 2).Draw(t, "pausegap")
+		}
+		c.Actions = append(c.Actions, Action{Step: rapid.IntRange(1, 9).Draw(t, "relstep"), Kind: "release"})
+	}
 	if rapid.IntRange(0, 5).Draw(t, "sf") == 0 {
 		c.SendFails = rapid.IntRange(1, 3).Draw(t, "sfn")
 	}
+	c.CancelInHook = rapid.IntRange(0, 9).Draw(t, "cih") == 0
 	c.Retries = rapid.IntRange(1, 2).Draw(t, "retries")
 	c.ConnectFails = rapid.IntRange(0, 11).Draw(t, "cf") == 0
 	return c
@@ -134,6 +144,7 @@ func judge(c Case) *pbt.Verdict {
 	var errs []error
 	var rc, ec bool
 	callerCancelledLive := false // caller cancelled while the channels were still open
+	cancelAfterCause := false    // ... but another terminal cause (failure status, hook error) had already occurred: the first cause may be the one reported
 	terminalDelivered := false   // a terminal status reached the requestor while the request was live
 	failureDeliveredClean := graphsync.ResponseStatusCode(0)
 	localCause := false // a local terminal cause (cancel, hook error) occurred
@@ -170,6 +181,14 @@ func judge(c Case) *pbt.Verdict {
 		rq := w.AddInstance(scen.ReqID, sim.NewStore(reqStore, true), gsimpl.MessageSendRetries(c.Retries))
 		resp := w.AddScripted(scen.RespID)
 		nResp, nBlock := 0, 0
+		stall := make(chan struct{})
+		stallOpen := false
+		release := func() {
+			if !stallOpen {
+				stallOpen = true
+				close(stall)
+			}
+		}
 		rq.GS.RegisterIncomingResponseHook(func(p peer.ID, r graphsync.ResponseData, ha graphsync.IncomingResponseHookActions) {
 			nResp++
 			if nResp == c.RespHookErr {
@@ -186,8 +205,20 @@ func judge(c Case) *pbt.Verdict {
 			if nBlock == c.BlockHookPause {
 				ha.PauseRequest()
 			}
+			if nBlock == c.BlockHookStall && !stallOpen {
+				<-stall
+			}
 		})
-		ctx := context.WithValue(w.Ctx, graphsync.RequestIDContextKey{}, myID)
+		ctx, cancelEarly := context.WithCancel(context.WithValue(w.Ctx, graphsync.RequestIDContextKey{}, myID))
+		defer cancelEarly()
+		if c.CancelInHook {
+			rq.GS.RegisterOutgoingRequestHook(func(p peer.ID, r graphsync.RequestData, ha graphsync.OutgoingRequestHookActions) {
+				callerCancelledLive = true
+				localCause = true
+				states["cancel-during-registration"] = true
+				cancelEarly()
+			})
+		}
 		res := w.RequestCtx(ctx, rq, scen.RespID, cidlink.Link{Cid: b.Root}, c.Base.Sel.Node())
 		w.Quiesce()
 		live := func() bool {
@@ -205,6 +236,9 @@ func judge(c Case) *pbt.Verdict {
 		act := func(a Action) {
 			switch a.Kind {
 			case "ctxcancel":
+				if live() && (localCause || terminalDelivered) && !callerCancelledLive {
+					cancelAfterCause = true
+				}
 				if live() {
 					callerCancelledLive = true
 					localCause = true
@@ -213,6 +247,9 @@ func judge(c Case) *pbt.Verdict {
 				res.Cancel()
 			case "apicancel":
 				wasLive := live()
+				if wasLive && (localCause || terminalDelivered) && !callerCancelledLive {
+					cancelAfterCause = true
+				}
 				if wasLive {
 					noteState("cancel")
 					callerCancelledLive = true
@@ -230,6 +267,8 @@ func judge(c Case) *pbt.Verdict {
 				_ = rq.GS.Unpause(w.Ctx, myID)
 			case "disconnect":
 				w.Net.Disconnect(scen.ReqID, scen.RespID)
+			case "release":
+				release()
 			}
 			w.Quiesce()
 		}
@@ -273,6 +312,8 @@ func judge(c Case) *pbt.Verdict {
 				w.Quiesce()
 			}
 		}
+		release()
+		w.Quiesce()
 		// fairness premise: whatever is paused gets unpaused -- except a request its caller has
 		// cancelled, which must end without further help
 		for i := 0; i < 3 && !callerCancelledLive; i++ {
@@ -331,14 +372,17 @@ func judge(c Case) *pbt.Verdict {
 				found = true
 			}
 		}
-		if !found {
+		if !found && !cancelAfterCause {
 			return v.Failf("caller cancelled a live request but no RequestClientCancelledErr was reported: errs=%v", errs)
+		}
+		if cancelAfterCause {
+			v.Label("cancel-after-another-terminal-cause")
 		}
 		if !cancelOnWire && !c.ConnectFails {
 			return v.Failf("caller cancelled a live request but no Cancel for it was handed to the network")
 		}
 	}
-	if failureDeliveredClean != 0 {
+	if failureDeliveredClean != 0 && !callerCancelledLive {
 		found := false
 		for _, e := range errs {
 			if identifies(e, failureDeliveredClean) {
